@@ -46,11 +46,12 @@ TEXT = dict(
           "mixture (C05_lib). The extracted monitor decides every trace the instrumented implementation produces; crash images are "
           "also materialised as real files and opened with the real Database::open. Rawdb/AllocEvents.v gives the allocator MODEL its own "
           "durability trace (compared token by token with the real trace of every generated history), and "
-          "C05_model_disciplined_partial / C05_all_histories_partial prove that every model history made of create, truncate, "
-          "rename, remove, handle drop, set_min_len and Database::flush in every outcome (and of refused writes / retain / region "
-          "flush / compact) is accepted by the monitor, hence crash-safe at every point; the successful paths of the write family, "
-          "retain, Region::flush and compact are covered per observed trace only (C05_model_disciplined_full is stated, not yet proved)."),
+          "C05_model_disciplined / C05_all_histories (both FULL) prove that EVERY history of the allocator model — create, the "
+          "write family through all five placement paths, truncate, rename, remove, retain, handle drop, set_min_len, "
+          "Region::flush, Database::flush on all three paths, compact with any subset of punches, in every outcome including "
+          "refusals — produces a trace the monitor accepts, hence is crash-safe at every crash point for every choice of page "
+          "versions: the property for all histories of the model, not per observed trace."),
     note=("Trusted: Coq kernel; the tap call sites; the harness's reconstruction of page versions; the property's own fault model "
-          "(atomic 4 KiB pages, ordered file length). Histories are proved safe per trace (monitor), not yet for all histories "
-          "of the allocator model; the kernel's actual write-back is assumed, not exhibited."),
+          "(atomic 4 KiB pages, ordered file length). The allocator is modelled, not verified: the tie is the model's trace compared token by token with the "
+          "real code's tap trace on generated histories. The kernel's actual write-back is assumed, not exhibited."),
 )
